@@ -158,6 +158,9 @@ func semDiffers(c *Case, want, impl string) bool {
 			semStats["with a content param, semantics:"+wf[0]]++
 		}
 	}
+	if strings.Contains(c.Req, "7b6d736720") { // "{msg "
+		semStats["with {msg}, semantics:"+wf[0]]++
+	}
 	if wf[0] == "HANG" {
 		semStats["unspec, engine:"+imf[0]]++
 		return false // the driver's evaluator ran out of time (long nested loops): no answer to compare
@@ -195,7 +198,7 @@ func init() {
 	}
 	register(&Prop{
 		ID: "C04sem",
-		Rule: "validation of the trusted JavaScript semantics: generated files — an entry template and, in half of them, one or two templates it calls ({call} with value and content params, no data / data=\"all\" / data=\"$m\", callees calling callees, calls inside loops and content blocks; the semantics runs the callee's translated body as the callee oracle) — of the command fragment of Props/C04d (raw text with quotes, backslashes and HTML-special bytes; prints of int / string / bool expressions with no directive, |id, |noAutoescape, |escapeHtml under the three autoescape settings; let (value and content blocks) with fresh and SHADOWING names; if/elseif/else; foreach with and without ifempty over list parameters and map fields, for over range(…) with one to three arguments (positive literal step), switch on ints / strings with labels of both types, loop variables shadowing parameters, index / isFirst / isLast of the enclosing loops' variables; " +
+		Rule: "validation of the trusted JavaScript semantics: generated files ({msg} without a bundle — text, HTML tags, print and call placeholders — among the commands) — an entry template and, in half of them, one or two templates it calls ({call} with value and content params, no data / data=\"all\" / data=\"$m\", callees calling callees, calls inside loops and content blocks; the semantics runs the callee's translated body as the callee oracle) — of the command fragment of Props/C04d (raw text with quotes, backslashes and HTML-special bytes; prints of int / string / bool expressions with no directive, |id, |noAutoescape, |escapeHtml under the three autoescape settings; let (value and content blocks) with fresh and SHADOWING names; if/elseif/else; foreach with and without ifempty over list parameters and map fields, for over range(…) with one to three arguments (positive literal step), switch on ints / strings with labels of both types, loop variables shadowing parameters, index / isFirst / isLast of the enclosing loops' variables; " +
 			"expressions: + - * % on small ints, string concatenation, comparisons, same-type equality, and/or/not, ?:, elvis on a nullable, .k / ?.k / [i] accesses, length, isNonnull, floor/ceiling/round/min/max) x 3 data sets (one of them with missing map fields, null and undefined values, empty lists: TypeErrors and ifempty branches); " +
 			"soyjs.Write's statement text and its run in otto versus renderStmts(toCmds) and its run under Spec/JsStmt.execStmts in the driver, from the same data: text byte for byte, and the completion (output string / TypeError) wherever the semantics is not `unspec`; plus hand-written cases; non-trivial = the engine returns a non-empty string or throws",
 		Gen:         genC04sem,
@@ -560,9 +563,40 @@ func (g *semGen) call(d int) string {
 	return "{call ." + c.name + attr + "}" + ps.String() + "{/call}"
 }
 
+// {msg}: without a message bundle the generator writes the parts one after the other — raw text, HTML tags and the
+// placeholders (prints, now and then a call)
+func (g *semGen) msg(d int) string {
+	var b strings.Builder
+	b.WriteString("{msg desc=\"" + g.r.Pick([]string{"d", "a b", "x"}) + "\"}")
+	for i, n := 0, 1+g.r.Intn(5); i < n; i++ {
+		switch g.r.Intn(6) {
+		case 0, 1:
+			for j, m := 0, 1+g.r.Intn(4); j < m; j++ {
+				b.WriteString(g.r.Pick([]string{"a", "b", "Z", "0", " ", "&", "\"", "'", "\\", ".", "é"}))
+			}
+		case 2:
+			b.WriteString(g.r.Pick([]string{"<b>", "</b>", "<br/>", "<a href=\"x\">", "</a>"}))
+		case 3:
+			if len(g.callees) > 0 && g.r.Bool() {
+				b.WriteString(g.call(0))
+				break
+			}
+			fallthrough
+		default:
+			t := semTy(g.r.Intn(3))
+			b.WriteString("{" + g.exprOf(t, 1) + g.r.Pick([]string{"", "", "|id", "|noAutoescape", "|escapeHtml"}) + "}")
+		}
+	}
+	b.WriteString("{/msg}")
+	return b.String()
+}
+
 func (g *semGen) cmd(d int) string {
 	if len(g.callees) > 0 && g.r.Intn(5) == 0 {
 		return g.call(d)
+	}
+	if g.r.Intn(12) == 0 {
+		return g.msg(d)
 	}
 	k := g.r.Intn(10)
 	if d <= 0 && k >= 6 {
@@ -829,6 +863,8 @@ var semHands = []struct{ src, data string }{
 	{"{namespace sem}\n/** @param m */\n{template .t}\nA{call .c}{param p: $m.q.z /}{/call}B\n{/template}\n/** @param p */\n{template .c}\n{$p}\n{/template}\n", "(m (6d (m (61 (i 1)))))"},
 	// a call inside a loop, the loop variable and index passed on; the callee loops itself
 	{"{namespace sem}\n/** @param li */\n{template .t}\n{foreach $x in $li}{call .c}{param p: $x /}{param i: index($x) /}{param l: $li /}{/call};{/foreach}\n{/template}\n/** @param p\n @param i\n @param l */\n{template .c}\n{$i}:{foreach $y in $l}{$y * $p}{if not isLast($y)},{/if}{/foreach}\n{/template}\n", "(m (6c69 (l (i 2) (i 3))))"},
+	// {msg} without a bundle: text, tags and placeholders in order; a let inside a placeholder's call param does not leak
+	{"{namespace sem}\n/** @param n\n @param s */\n{template .t}\n{msg desc=\"d\"}Hello <b>{$s}</b>, you have {$n + 1} items{$s|noAutoescape}{call .c}{param p}{let $n: 'in' /}{$n}{/param}{/call}.{/msg}{$n}\n{/template}\n/** @param p */\n{template .c}\n[{$p}]\n{/template}\n", "(m (6e (i 4)) (73 (s 3c26)))"},
 	// raw text with every escape class
 	{"{namespace sem}\n{template .t}\na'b\"c\\d<e>&f=g{sp}{nil}{\\n}{\\t}{lb}{rb}é \n{/template}\n", "(m)"},
 }
